@@ -12,7 +12,7 @@ VERIF = os.path.dirname(os.path.dirname(os.path.abspath(__file__)))
 if VERIF not in sys.path:
     sys.path.insert(0, VERIF)
 
-from pyvc import runner  # noqa: E402
+from pyvc import runner, fields  # noqa: E402
 from pyvc.registry import PROPERTIES, COMMON_ASSUMPTIONS  # noqa: E402
 
 
@@ -118,6 +118,7 @@ def main(argv=None):
     violations = []
     known_hits = []
     undecided = []
+    unmodelled = []   # frame obligations that differ only at attributes the contracts do not model
     gaps = []
     crashes = []
     canaries_refuted = 0
@@ -173,7 +174,14 @@ def main(argv=None):
                     # obligation over ghost state / lemma over contracts: no native input exists by construction
                     conf = True
                     o.reason = (o.reason + " " if o.reason else "") + "no-failing-input-found"
-                if conf:
+                unm = fields.unmodelled(o.name) if conf else None
+                if unm is not None:
+                    # whole-heap frame obligation that differs only at an attribute the contracts do not model (a field
+                    # added since they were written): the frame argument is incomplete, which is not evidence of a
+                    # violation -- a correct memo field or debug counter changes the heap as well.  Left to the
+                    # history-level bounded check of the property.
+                    unmodelled.append((full, "frame differs at `.%s`, an attribute the contracts do not model; decided by the history-level bounded check" % unm))
+                elif conf:
                     k = known_match(known, pid, uname, o.name)
                     if k is not None:
                         known_hits.append((k, full))
@@ -306,8 +314,10 @@ def main(argv=None):
         print("CHECKER-CRASH property=%s unit=%s: %s" % (pid, u, why[-1500:]))
     if crashes and rc == 0:
         rc = 3
-    if a.v or undecided or gaps:
+    if a.v or undecided or gaps or unmodelled:
         for u, why in undecided[:40]:
+            print("UNDECIDED %s: %s" % (u, why[:300]))
+        for u, why in unmodelled[:10]:
             print("UNDECIDED %s: %s" % (u, why[:300]))
         for u, why in gaps[:40]:
             print("ENGINE-GAP %s: %s" % (u, why[:300]))
@@ -327,7 +337,7 @@ def main(argv=None):
         "by_backend": by_backend,
         "solver_s": round(solver_s, 3),
         "functions_under_contract": sorted(functions),
-        "undecided": [u for u, _ in undecided][:200],
+        "undecided": [u for u, _ in undecided + unmodelled][:200],
         "engine_gaps": [u for u, _ in gaps][:50],
         "canaries_refuted": canaries_refuted,
         "bounded_units": bounded_units,
@@ -363,7 +373,7 @@ def main(argv=None):
         with open(os.path.join(VERIF, "evidence", pid + ".json"), "w") as f:
             json.dump(ev, f, indent=1, default=str)
     print("%s tier=%s units=%d paths=%d obligations=%d discharged=%d undecided=%d gaps=%d known=%d violations=%d wall=%.1fs"
-          % (pid, tier, len(jobs), paths, n_ob, n_dis, len(undecided), len(gaps), len(printed_known), len(violations), wall))
+          % (pid, tier, len(jobs), paths, n_ob, n_dis, len(undecided) + len(unmodelled), len(gaps), len(printed_known), len(violations), wall))
     return rc
 
 
